@@ -178,13 +178,11 @@ func (g *Gen) Push(spec *BlockSpec) {
 	g.stack = append(g.stack, level{spec: spec, after: after, zeroNoop: cur.HasZeroNoop(&spec.Diff)})
 }
 
-// RevertWillFail predicts the outcome of RevertHead for the configured backend.
+// RevertWillFail predicts the outcome of RevertHead: only reverting an empty chain fails. (Before juno
+// commit 1b89e86 the legacy backend also failed after a zero write to an absent slot above genesis; the
+// zeroNoop flag of a level is still recorded for the histogram.)
 func (g *Gen) RevertWillFail() bool {
-	if len(g.stack) == 0 {
-		return true
-	}
-	// the genesis block reverts fine: its reverse diff is all zeros without consulting the history
-	return g.Cfg.Legacy && len(g.stack) > 1 && g.stack[len(g.stack)-1].zeroNoop
+	return len(g.stack) == 0
 }
 
 // Pop records a head revert on the abstract chain; false when the revert is predicted to fail
